@@ -17,12 +17,13 @@ Proof.
   intros Hne. unfold direct.
   destruct (nth_error g i) as [nd|]; [|reflexivity].
   destruct (nth_error (gnodes st) i) as [ns|]; [|reflexivity].
-  destruct nd as [q|f p|w s p|u p].
+  destruct nd as [q|f p|w s p|u p|p1 p2].
   - cbn [fst]. apply nth_put_neq. congruence.
   - destruct (trans_post f t (rdd_of st p) ns) as [[n2 lg] e2]. cbn [fst]. unfold add_log; cbn [gnodes].
     apply nth_put_neq. congruence.
   - destruct (window_post w s (rdd_of st p) (set_time t ns)) as [n2 e2]. cbn [fst]. apply nth_put_neq. congruence.
   - destruct (stateful_post u t (rdd_of st p) ns) as [n2 e2]. cbn [fst]. apply nth_put_neq. congruence.
+  - destruct (union_post t (rdd_of st p1) (rdd_of st p2) ns) as [n2 e2]. cbn [fst]. apply nth_put_neq. congruence.
 Qed.
 
 Lemma direct_nodes_untouched g t : forall is st m, ~ In m is ->
@@ -193,43 +194,60 @@ Qed.
 End StatefulAnywhere.
 
 (* ---------- programs that cannot raise ----------
-   quiet: windows and stateful streams sit directly on queue sources (stateful ones on sources of keyed batches), the
-   reduce stream of count() sits on its setName/mapPartitions streams; capturing consumers, mapPartitions-count and
-   setName streams may sit anywhere.  All the programs of the property (and any combination of them on any number
-   of sources) are quiet. *)
+   live p: stream p holds an RDD (not None) as soon as it has been stepped once: queue sources, stateful streams,
+   unions, and map-like transformed streams (mapPartitions-count, setName, map, filter, flatMap) on a live stream.
+   quiet: windows and unions sit on live streams, stateful streams directly on queue sources of keyed batches, the
+   reduce stream of count() on its setName / mapPartitions streams; capturing consumers and the map-like streams may
+   sit anywhere; no mapValues stream (it raises on elements that are not pairs).  All the programs of the property,
+   windows over derived streams, and any combination of them on any number of sources are quiet. *)
 Definition keyed_batch (b : list val) : Prop := all_kv b <> None.
+
+Definition maplike (f : tfun) : bool :=
+  match f with FCountParts | FSetName | FMapInc | FFilterEven | FFlatDup => true | _ => false end.
+
+Inductive live (g : list node) : nat -> Prop :=
+| live_src p q : nth_error g p = Some (Src q) -> live g p
+| live_state p u p' : nth_error g p = Some (Stateful u p') -> live g p
+| live_union p p1 p2 : nth_error g p = Some (Union p1 p2) -> live g p
+| live_trans p f p' : nth_error g p = Some (Trans f p') -> maplike f = true -> live g p' -> live g p.
 
 Definition quiet_node (g : list node) (nd : node) : Prop :=
   match nd with
   | Src _ => True
   | Trans FReduceAdd p =>
       exists p2 p3, nth_error g p = Some (Trans FSetName p2) /\ nth_error g p2 = Some (Trans FCountParts p3)
+  | Trans FMapValuesInc _ => False
   | Trans _ _ => True
-  | Window _ _ p => exists q, nth_error g p = Some (Src q)
+  | Window _ _ p => live g p
   | Stateful _ p => exists q, nth_error g p = Some (Src q) /\ Forall keyed_batch q
+  | Union p1 p2 => live g p1 /\ live g p2
   end.
 Definition quiet (g : list node) : Prop := forall j nd, nth_error g j = Some nd -> quiet_node g nd.
 
 Definition cnt_shape (r : rdd) : Prop := r = RNone \/ r = REmpty \/ exists z, r = RData [VInt z].
 
-Definition node_ok (g : list node) (nd : node) (ns : nstate) : Prop :=
+Definition kind_ok (g : list node) (nd : node) (ns : nstate) : Prop :=
   match nd with
-  | Src q => (nrdd ns = RNone -> ntime ns <= 0) /\ (forall b, nrdd ns = RData b -> In b q)
-             /\ (forall b, In b (nqueue ns) -> In b q)
+  | Src q => (forall b, nrdd ns = RData b -> In b q) /\ (forall b, In b (nqueue ns) -> In b q)
   | Window _ _ _ => existsb is_none_rdd (nbuf ns) = false
   | Trans FCountParts _ => cnt_shape (nrdd ns)
   | Trans FSetName p2 => (exists p3, nth_error g p2 = Some (Trans FCountParts p3)) -> cnt_shape (nrdd ns)
   | _ => True
   end.
+(* a live stream that has been stepped (guard time > 0) holds an RDD *)
+Definition node_ok (g : list node) (j : nat) (nd : node) (ns : nstate) : Prop :=
+  kind_ok g nd ns /\ (live g j -> nrdd ns = RNone -> ntime ns <= 0).
 Definition all_ok (g : list node) (st : gstate) : Prop :=
-  forall j nd ns, nth_error g j = Some nd -> nth_error (gnodes st) j = Some ns -> node_ok g nd ns.
+  forall j nd ns, nth_error g j = Some nd -> nth_error (gnodes st) j = Some ns -> node_ok g j nd ns.
 
 Lemma all_ok_init g : all_ok g (init_state g).
 Proof.
   intros j nd ns Hg Hs. rewrite (init_nth g j nd Hg) in Hs. inversion Hs; subst. clear Hs.
-  destruct nd as [q|f p|w s p|u p]; cbn; auto.
-  - unfold dstream_time_init. repeat split; try lia; try discriminate. auto.
-  - destruct f; cbn; auto; unfold cnt_shape; auto.
+  split.
+  - destruct nd as [q|f p|w s p|u p|p1 p2]; cbn; auto.
+    + split; [discriminate|auto].
+    + destruct f; cbn; auto; unfold cnt_shape; auto.
+  - intros _ _. destruct nd; cbn; unfold dstream_time_init; lia.
 Qed.
 
 Lemma existsb_app' {A} (f : A -> bool) l1 l2 : existsb f (l1 ++ l2) = existsb f l1 || existsb f l2.
@@ -248,10 +266,10 @@ Lemma direct_quiet a st nd ns :
   snd (direct g a t st) = None /\ all_ok g (fst (direct g a t st)).
 Proof.
   intros [HL HM] Hok Hg Hs.
-  pose proof (Hwf a nd Hg) as Hb. pose proof (Hq a nd Hg) as Hqn. pose proof (Hok a nd ns Hg Hs) as Hme.
+  pose proof (Hwf a nd Hg) as Hb. pose proof (Hq a nd Hg) as Hqn. destruct (Hok a nd ns Hg Hs) as [Hme Hmel].
   (* it suffices to show: no exception, and the new state of stream a is ok *)
   assert (Hsuff : forall n2 lg e2 (X : gstate * option string),
-            X = (add_log lg (put a n2 st), e2) -> e2 = None -> node_ok g nd n2 ->
+            X = (add_log lg (put a n2 st), e2) -> e2 = None -> node_ok g a nd n2 ->
             snd X = None /\ all_ok g (fst X)).
   { intros n2 lg e2 X E He Hn2. rewrite E. cbn [fst snd]. split; [exact He|].
     intros j ndj nsj Hgj Hsj. unfold add_log in Hsj; cbn [gnodes] in Hsj.
@@ -261,75 +279,120 @@ Proof.
     - rewrite nth_put_neq in Hsj by assumption. eapply Hok; eauto. }
   assert (Hadd : forall s0, add_log [] s0 = s0).
   { intros [nodes lg]. unfold add_log. cbn. now rewrite app_nil_r. }
-  (* a parent registered before a has been stepped in this tick *)
+  (* a parent registered before a has been stepped in this tick; if it is live it holds an RDD *)
   assert (Hpar : forall p, (p < a)%nat -> exists ndp nsp, nth_error g p = Some ndp /\ nth_error (gnodes st) p = Some nsp
-                                                         /\ t <= ntime nsp /\ node_ok g ndp nsp).
+                                     /\ t <= ntime nsp /\ kind_ok g ndp nsp /\ (live g p -> is_none_rdd (nrdd nsp) = false)).
   { intros p Hp.
     assert (Ha : (a < length g)%nat) by (apply nth_error_Some; congruence).
     destruct (nth_error g p) as [ndp|] eqn:E1; [|apply nth_error_None in E1; lia].
     destruct (nth_error (gnodes st) p) as [nsp|] eqn:E2; [|apply nth_error_None in E2; lia].
-    exists ndp, nsp. split; [reflexivity|]. split; [reflexivity|].
-    split; [apply (proj1 (HM p nsp E2)); lia|eapply Hok; eauto]. }
+    pose proof (proj1 (HM p nsp E2) Hp) as Tp. destruct (Hok p ndp nsp E1 E2) as [K L].
+    exists ndp, nsp. repeat (split; [reflexivity || assumption|]).
+    intros Hl. destruct (nrdd nsp) eqn:Er; auto. specialize (L Hl eq_refl). lia. }
+  (* a stream that is not live by construction *)
+  assert (Hnl : forall (P : Prop), live g a ->
+            (forall q, nd <> Src q) -> (forall u p, nd <> Stateful u p) -> (forall p1 p2, nd <> Union p1 p2) ->
+            (forall f p, nd = Trans f p -> maplike f = true -> live g p -> P) -> P).
+  { intros P Hl N1 N2 N3 N4. inversion Hl as [? q G|? u p' G|? p1 p2 G|? f p' G M L]; subst; rewrite Hg in G; inversion G; subst.
+    - exfalso. eapply N1; reflexivity.
+    - exfalso. eapply N2; reflexivity.
+    - exfalso. eapply N3; reflexivity.
+    - eapply N4; eauto. }
   unfold direct. rewrite Hg, Hs.
-  destruct nd as [q|f p|w s p|u p].
+  destruct nd as [q|f p|w s p|u p|p1 p2].
   - (* source *)
     apply (Hsuff (src_pop (set_time t ns)) [] None); [now rewrite Hadd|reflexivity|].
-    destruct Hme as (M1 & M2 & M3). unfold src_pop. cbn [nqueue set_time].
+    destruct Hme as (M2 & M3). unfold src_pop. cbn [nqueue set_time].
     destruct (nqueue ns) as [|b r] eqn:Eq; cbn.
-    + split; [discriminate|]. split; [discriminate|]. rewrite Eq. intros b0 Hb0. destruct Hb0.
-    + split; [discriminate|]. split.
+    + split; [split; [discriminate|intros b0 Hb0; cbn in Hb0; rewrite Eq in Hb0; cbn in Hb0; contradiction]|intros _ H; discriminate H].
+    + split; [split|intros _ H; discriminate H].
       * intros b0 Hb0. inversion Hb0; subst. apply M3. now left.
       * intros b0 Hb0. apply M3. now right.
   - (* transformed *)
     destruct (trans_post f t (rdd_of st p) ns) as [[n2 lg] e2] eqn:E.
     unfold trans_post in E.
-    destruct (Hpar p Hb) as (ndp & nsp & Gp & Sp & Tp & Okp). rewrite (rdd_of_nth _ _ _ Sp) in E.
+    destruct (Hpar p Hb) as (ndp & nsp & Gp & Sp & Tp & Okp & Lp). rewrite (rdd_of_nth _ _ _ Sp) in E.
+    (* the live part of the new state: a live transformed stream is map-like on a live parent *)
+    assert (Hlive : forall r, (maplike f = true -> is_none_rdd (nrdd nsp) = false -> r <> RNone) ->
+                      live g a -> r = RNone -> t <= 0).
+    { intros r Hr Hl Hn. exfalso.
+      apply (Hnl False Hl); try discriminate.
+      intros f0 p0 Ef M L. injection Ef as <- <-. apply (Hr M (Lp L) Hn). }
     destruct (nrdd nsp) as [| |xs] eqn:Er; cbn [is_none_rdd] in E.
     + (* the parent has no RDD yet *)
       inversion E; subst. apply (Hsuff (set_time t ns) [] None); [reflexivity|reflexivity|].
-      destruct f; cbn [node_ok] in *; auto.
-    + destruct f; cbn [apply_tfun] in E; inversion E; subst;
-        (eapply Hsuff; [reflexivity|reflexivity|]); cbn [node_ok]; auto.
+      split.
+      * destruct f; cbn [kind_ok nrdd set_time] in *; auto.
+      * cbn [nrdd ntime set_time]. intros Hl _. exfalso. apply (Hnl False Hl); try discriminate.
+        intros f0 p0 Ef M L. injection Ef as <- <-. specialize (Lp L). discriminate Lp.
+    + destruct f; cbn [apply_tfun collect] in E; try (destruct Hqn; fail); inversion E; subst;
+        (eapply Hsuff; [reflexivity|reflexivity|]); (split; [cbn [kind_ok nrdd set_rdd set_time]|
+           cbn [nrdd ntime set_rdd set_time]; apply Hlive; intros M _; try discriminate M; discriminate]); auto.
       * right; left; reflexivity.
       * intros _. right; left; reflexivity.
-    + destruct f; cbn [apply_tfun] in E.
-      * inversion E; subst. eapply Hsuff; [reflexivity|reflexivity|]. exact I.
-      * inversion E; subst. eapply Hsuff; [reflexivity|reflexivity|]. right; right; eexists; reflexivity.
-      * inversion E; subst. eapply Hsuff; [reflexivity|reflexivity|]. cbn [node_ok].
-        intros (p3 & Hp3). rewrite Gp in Hp3. inversion Hp3; subst. cbn [node_ok] in Okp.
+    + destruct f; cbn [apply_tfun collect] in E; try (destruct Hqn; fail).
+      * inversion E; subst. eapply Hsuff; [reflexivity|reflexivity|].
+        split; [exact I|cbn [nrdd ntime set_rdd set_time]; apply Hlive; intros M _; discriminate M].
+      * inversion E; subst. eapply Hsuff; [reflexivity|reflexivity|].
+        split; [right; right; eexists; reflexivity|cbn [nrdd ntime set_rdd set_time]; apply Hlive; intros _ _; discriminate].
+      * inversion E; subst. eapply Hsuff; [reflexivity|reflexivity|].
+        split; [|cbn [nrdd ntime set_rdd set_time]; apply Hlive; intros _ _; discriminate].
+        cbn [kind_ok]. intros (p3 & Hp3). rewrite Gp in Hp3. inversion Hp3; subst. cbn [kind_ok] in Okp.
         rewrite Er in Okp. cbn. exact Okp.
       * (* reduce: its parent is setName over mapPartitions-count, so xs = [VInt z] *)
         destruct Hqn as (p2 & p3 & Q1 & Q2). rewrite Gp in Q1. inversion Q1; subst.
-        cbn [node_ok] in Okp. specialize (Okp (ex_intro _ p3 Q2)). rewrite Er in Okp.
+        cbn [kind_ok] in Okp. specialize (Okp (ex_intro _ p3 Q2)). rewrite Er in Okp.
         destruct Okp as [C|[C|[z C]]]; try discriminate. inversion C; subst. cbn [all_Z] in E.
-        inversion E; subst. eapply Hsuff; [reflexivity|reflexivity|]. exact I.
-  - (* window on a source *)
-    destruct Hqn as (q & Gq).
-    destruct (Hpar p Hb) as (ndp & nsp & Gp & Sp & Tp & Okp). rewrite Gq in Gp. inversion Gp; subst ndp.
+        inversion E; subst. eapply Hsuff; [reflexivity|reflexivity|].
+        split; [exact I|cbn [nrdd ntime set_rdd set_time]; apply Hlive; intros M _; discriminate M].
+      * inversion E; subst. eapply Hsuff; [reflexivity|reflexivity|].
+        split; [exact I|cbn [nrdd ntime set_rdd set_time]; apply Hlive; intros _ _; discriminate].
+      * inversion E; subst. eapply Hsuff; [reflexivity|reflexivity|].
+        split; [exact I|cbn [nrdd ntime set_rdd set_time]; apply Hlive; intros _ _; discriminate].
+      * inversion E; subst. eapply Hsuff; [reflexivity|reflexivity|].
+        split; [exact I|cbn [nrdd ntime set_rdd set_time]; apply Hlive; intros _ _; discriminate].
+  - (* window on a live stream *)
+    destruct (Hpar p Hb) as (ndp & nsp & Gp & Sp & Tp & Okp & Lp).
     rewrite (rdd_of_nth _ _ _ Sp).
-    assert (Hnn : is_none_rdd (nrdd nsp) = false).
-    { destruct Okp as (M1 & _). destruct (nrdd nsp); auto. specialize (M1 eq_refl). lia. }
-    cbn [node_ok] in Hme.
+    pose proof (Lp Hqn) as Hnn.
+    cbn [kind_ok] in Hme.
     unfold window_post. cbn [nbuf set_time nctr].
     set (buf := trim w (nbuf ns ++ [nrdd nsp])).
     assert (Hbuf : existsb is_none_rdd buf = false).
     { unfold buf. rewrite trim_spec. unfold lastn. apply existsb_skipn.
       rewrite existsb_app', Hme. cbn. now rewrite Hnn. }
+    assert (Hwl : forall r : rdd, live g a -> r = RNone -> t <= 0).
+    { intros r Hl _. exfalso. apply (Hnl False Hl); discriminate. }
     destruct (win_skip (win_counter_next (nctr ns) s)).
-    + eapply (Hsuff _ [] None); [rewrite Hadd; reflexivity|reflexivity|]. cbn. exact Hbuf.
-    + rewrite (union_no_none buf Hbuf). eapply (Hsuff _ [] None); [rewrite Hadd; reflexivity|reflexivity|]. cbn. exact Hbuf.
+    + eapply (Hsuff _ [] None); [rewrite Hadd; reflexivity|reflexivity|]. split; [cbn; exact Hbuf|cbn; apply Hwl].
+    + rewrite (union_no_none buf Hbuf). eapply (Hsuff _ [] None); [rewrite Hadd; reflexivity|reflexivity|].
+      split; [cbn; exact Hbuf|cbn; apply Hwl].
   - (* stateful on a source of keyed batches *)
     destruct Hqn as (q & Gq & Hkeyed).
-    destruct (Hpar p Hb) as (ndp & nsp & Gp & Sp & Tp & Okp). rewrite Gq in Gp. inversion Gp; subst ndp.
-    rewrite (rdd_of_nth _ _ _ Sp). destruct Okp as (M1 & M2 & _).
+    destruct (Hpar p Hb) as (ndp & nsp & Gp & Sp & Tp & Okp & Lp). rewrite Gq in Gp. inversion Gp; subst ndp.
+    rewrite (rdd_of_nth _ _ _ Sp). destruct Okp as (M2 & _).
+    pose proof (Lp (live_src g p q Gq)) as Hnn.
     unfold stateful_post.
     destruct (nrdd nsp) as [| |b] eqn:Er.
-    + specialize (M1 eq_refl). lia.
-    + cbn [collect all_kv]. eapply (Hsuff _ [] None); [rewrite Hadd; reflexivity|reflexivity|exact I].
+    + discriminate Hnn.
+    + cbn [collect all_kv]. eapply (Hsuff _ [] None); [rewrite Hadd; reflexivity|reflexivity|].
+      split; [exact I|cbn; intros _ H; discriminate H].
     + cbn [collect]. specialize (M2 b eq_refl).
       pose proof (proj1 (Forall_forall _ _) Hkeyed b M2) as Hk. unfold keyed_batch in Hk.
       destruct (all_kv b) as [kb|]; [|congruence].
-      eapply (Hsuff _ [] None); [rewrite Hadd; reflexivity|reflexivity|exact I].
+      eapply (Hsuff _ [] None); [rewrite Hadd; reflexivity|reflexivity|].
+      split; [exact I|cbn; intros _ H; discriminate H].
+  - (* union of two live streams *)
+    destruct Hqn as [Hl1 Hl2]. destruct Hb as [Hb1 Hb2].
+    destruct (Hpar p1 Hb1) as (nd1 & ns1 & G1 & S1 & T1 & _ & L1).
+    destruct (Hpar p2 Hb2) as (nd2 & ns2 & G2 & S2 & T2 & _ & L2).
+    rewrite (rdd_of_nth _ _ _ S1), (rdd_of_nth _ _ _ S2).
+    unfold union_post.
+    assert (Hnn : existsb is_none_rdd [nrdd ns1; nrdd ns2] = false).
+    { cbn [existsb]. now rewrite (L1 Hl1), (L2 Hl2). }
+    rewrite (union_no_none _ Hnn).
+    eapply (Hsuff _ [] None); [rewrite Hadd; reflexivity|reflexivity|].
+    split; [exact I|]. cbn [nrdd ntime set_rdd set_time]. intros _ H. exfalso. exact (union_data_not_none _ H).
 Qed.
 
 Lemma direct_nodes_quiet : forall k a st,
@@ -438,7 +501,7 @@ Qed.
 Lemma prog_count_state_quiet kq w s u k : quiet (prog_count_state (enc_queue kq) w s u k).
 Proof.
   intros j nd H. pose proof H as H0. unfold prog_count_state in H.
-  do 5 (destruct j as [|j]; [inversion H; subst; cbn; try (do 2 eexists; split; reflexivity); try (eexists; reflexivity); auto|]). cbn [nth_error] in H.
+  do 5 (destruct j as [|j]; [inversion H; subst; cbn; try (do 2 eexists; split; reflexivity); try (eapply live_src; reflexivity); auto|]). cbn [nth_error] in H.
   apply nth_error_In in H. apply in_app_or in H as [H|[H|H]].
   - apply consumers_from_In in H as (c & ->). exact I.
   - subst nd. cbn. exists (enc_queue kq). split; [reflexivity|apply keyed_enc_queue].
@@ -462,7 +525,7 @@ Qed.
 Lemma prog_both_quiet kq w s u k : quiet (prog_both (enc_queue kq) w s u k).
 Proof.
   intros j nd H. unfold prog_both in H.
-  do 2 (destruct j as [|j]; [inversion H; subst; cbn; try (do 2 eexists; split; reflexivity); try (eexists; reflexivity); auto|]). cbn [nth_error] in H.
+  do 2 (destruct j as [|j]; [inversion H; subst; cbn; try (do 2 eexists; split; reflexivity); try (eapply live_src; reflexivity); auto|]). cbn [nth_error] in H.
   apply nth_error_In in H. apply in_app_or in H as [H|[H|H]].
   - apply consumers_from_In in H as (c & ->). exact I.
   - subst nd. cbn. exists (enc_queue kq). split; [reflexivity|apply keyed_enc_queue].
